@@ -118,7 +118,11 @@ Calls(first) ==
       D(n) == [A(n) EXCEPT !.skeep = FALSE, !.schedp = [k \in Keys |-> IF k = "object" THEN "exp" ELSE "linear"]]
       D2(n) == [A(n) EXCEPT !.optp = [k \in Keys |-> IF k = "object" THEN [type |-> "adamw", lr |-> 1] ELSE [type |-> "sgd", lr |-> 3]],
                             !.skeep = FALSE, !.schedp = [k \in {"probe"} |-> "plateau"]]
-  IN IF first THEN {A(n) : n \in ns} \cup {D(n) : n \in ns} \cup {D2(2)}
+      \* plain SGD keeps NO per-parameter state, so its state dict stays empty after stepping: with a scheduler
+      \* that has already moved the lr, everything an interruption must carry over lives in the param group
+      S(n) == [A(n) EXCEPT !.optp = [k \in Keys |-> [type |-> "sgd", lr |-> IF k = "object" THEN 3 ELSE 2]],
+                           !.skeep = FALSE, !.schedp = [k \in Keys |-> "exp"]]
+  IN IF first THEN {A(n) : n \in ns} \cup {D(n) : n \in ns} \cup {D2(2)} \cup {S(n) : n \in ns}
      ELSE {[base EXCEPT !.n = n] : n \in ns}                                                    \* plain continuation
           \cup {[base EXCEPT !.n = n, !.optp = [k \in {"object"} |-> [type |-> "sgd", lr |-> 3]]] : n \in ns}   \* new object optimizer
           \cup {D(n) : n \in ns}
